@@ -545,8 +545,10 @@ def d7_selection(chk, repo):
     ylab = l.spec("self.field._r_dim_mapping[self.field.mesh.region.dims[1]]")
     third = l.spec("getattr(self.field, (set(self.field.vdims) - set([a, b])).pop())", env={"a": xlab, "b": ylab})
     deleg = []
-    for call, st in l.calls():
-        if isinstance(call.func, ast.Attribute) and call.func.attr == "lightness" and isinstance(st, ast.Return):
+    from ..lib import returned_call
+    for r_ in l.returns():
+        call, st = returned_call(l, r_)        # `return x.lightness(...)`, or the same through a result temporary
+        if call is not None and isinstance(call.func, ast.Attribute) and call.func.attr == "lightness":
             deleg.append((call, st))
     chk.require(len(deleg) == 2, "lightness: expected the two delegations for 2- and 3-component fields")
     for k, (call, st) in enumerate(deleg):
